@@ -572,7 +572,9 @@ func TestC11(t *testing.T) {
 	// (b2) valid forms with one ASCII letter replaced by a non-ASCII letter that looks like, folds to, or normalises to an
 	// ASCII letter (Kelvin sign, long s, dotless i, Cyrillic and full-width look-alikes, ligatures, combining marks)
 	setRapidChecks(pick(150, 1500))
-	lookAlikes := []rune{'\u212a', '\u017f', '\u212a', '\u017f', '\u0131', '\u0130', '\u0430', '\u0410', '\uff21', '\uff41', '\u00df', '\u01c5', '\u00e9', '\u0301', '\u200b', '\u00a0', '\u0660', '\uff11'}
+	lookAlikes := []rune{'\u212a', '\u017f', '\u212a', '\u017f', '\u0131', '\u0130', '\u0430', '\u0410', '\uff21', '\uff41', '\u00df', '\u01c5', '\u00e9', '\u0301', '\u200b', '\u00a0', '\u0660', '\uff11',
+		// ASCII characters next to the letters in the code table, and the rest of the punctuation
+		'[', '\\', ']', '^', '`', '@', '{', '|', '}', '~', ':', ';', '<', '=', '>', '?', '!', '#', '$', '%', '\'', '(', ')', '+', ','}
 	rapid.Check(t, func(rt *rapid.T) {
 		p := positions[rapid.IntRange(0, len(positions)-1).Draw(rt, "position")]
 		n := 1
